@@ -114,6 +114,12 @@ CHECKS = {
         technique="model-based property testing: Hypothesis-drawn histories (submit / run / fail / cancel queued, between retries, in flight / timeout firing / shutdown) with metric samples at quiescent points, plus exhaustive single-pre-emption sweeps of gauge-update races, against a stand-in prometheus_client; oracle = gauge/counter values recomputed from the recorded history",
         text="With a stand-in prometheus_client on the import path (PrometheusMetrics live), metrics are sampled together with the state of every future at quiescent points: per-layer exec gauges/counters, future_inprogress/total/cancel/error, retry_queue, throttle_queue, retry_total, poll_total/poll_error, timeout and shutdown_cancel must equal the counts recomputed from the event history, and no gauge child may ever have gone below zero.",
         design_ref="DESIGN.md section 4 (C20)", note=ENGINE_NOTE + " prometheus_client itself is replaced by lib/standin/prometheus_client (the real package is not installable offline)."),
+
+    "C18": dict(
+        category="fault_enumeration",
+        technique="fault-injection property testing: every user-code call site present in a Hypothesis-drawn stack is a fault point (callable at invocation k, map/error/flat_map fn for one submission, poll fn at call k, cancel fn, should_retry/sleep_time at attempt k, count callable at call k, first of several done-callbacks), combined with concurrent cancels and tapes; exhaustive single-pre-emption sweeps of per-site programs; oracle = locality w.r.t. the sequential reference model + probe submission + thread exit causes + captured logs",
+        text="After each injected fault: futures not touched by it keep their reference outcome; the faulted future fails with exactly the injected exception object (or the fault is logged where the API says so); a probe submission made afterwards completes; the scheduler reports no library thread that ended with an exception; the captured log and the op results contain no library-internal exception (InvalidStateError, KeyError, AssertionError, AttributeError, TypeError ...) escaping a Future method, a worker thread or the stdlib callback invoker; every registered callback still runs exactly once.",
+        design_ref="DESIGN.md section 4 (C18)", note=ENGINE_NOTE),
 }
 
 NOT_YET = {}
